@@ -167,6 +167,8 @@ class Reader:
                 len(obj)
         except Exception:
             pass
+        if self.probe and self.probe():
+            self.blamed.append("%s.__iter__" % cname)
         if cname == "Table":
             try:
                 for ri in range(min(len(obj.rows), 6)):
@@ -182,6 +184,13 @@ class Reader:
                     list(obj.iter_values())
             except Exception:
                 pass
+        # the budget is spent depth-first: start with a different child in different plans so that every slide,
+        # shape and series is the first one visited in some of them
+        if children:
+            r = self.rot[(depth + 1) % len(self.rot)] % len(children)
+            children = children[r:] + children[:r]
+            if self.rev[(depth + 1) % len(self.rev)]:
+                children.reverse()
         for c in children:
             self.read(c, depth + 1)
 
@@ -310,6 +319,13 @@ def deck_bytes(deck):
             phs[0].left = 123456
         if len(phs) > 1:
             phs[1].width = 3456789
+        # groups moved / scaled as a whole (a:off, a:ext differ from a:chOff, a:chExt: the frame is not the members'
+        # bounding box, as PowerPoint writes after the user drags or resizes a group)
+        for sl in prs.slides:
+            for sh in sl.shapes:
+                if sh.shape_type is not None and sh.shape_type == 6 and len(sh.shapes):
+                    sh.left = int(sh.left) + 91440
+                    sh.width = int(sh.width) * 2 + 7
         data = it.save_bytes()
     elif "|" in deck:
         # variant of a corpus deck whose slide parts are renamed consistently (out of presentation order / gaps)
@@ -481,21 +497,22 @@ def plan_strategy():
         "rev": st.lists(st.booleans(), min_size=1, max_size=4),
         "reps": st.integers(1, 3),
         "saves": st.lists(st.integers(0, 2), max_size=3),
-        "budget": st.sampled_from([1500, 6000, 20000]),
+        "budget": st.sampled_from([1500, 6000, 20000, 60000]),
         "save_first": st.booleans(),
     })
 
 
 def jobs(tier):
-    decks = corpus_decks() + ["generated"]
-    if tier != "thorough":
-        decks = decks[::2] + ["generated"]
+    decks = corpus_decks()
     # slide parts out of presentation order / numbered with gaps (the slide collection renames them on access)
     multi = ["features/steps/test_files/sld-slides.pptx", "features/steps/test_files/shp-shapes.pptx",
              "features/steps/test_files/cht-charts.pptx", "tests/test_files/test.pptx"]
     decks += ["%s|%s" % (d, how) for d in multi for how in ("rotate", "gap", "orphan")]
-    n = 40 if tier == "thorough" else 14
-    return [{"decks": decks[i::16], "n": n} for i in range(16)]
+    n = 40 if tier == "thorough" else 10
+    js = [{"decks": decks[i::16], "n": n} for i in range(16)]
+    # the generated deck is the richest one: several jobs (= several seeds) of plans of its own
+    js += [{"decks": ["generated"], "n": 40 if tier == "thorough" else 12} for _ in range(8 if tier == "thorough" else 4)]
+    return js
 
 
 def run_job(job, seed, tier, rec, known):
